@@ -8,7 +8,12 @@ mkdir -p $T
 [ -d $T/repo ] || git -C /repo worktree add -q --detach $T/repo HEAD
 git -C $T/repo checkout -q --detach $(git -C /repo rev-parse HEAD) 2>/dev/null
 git -C $T/repo reset -q --hard; git -C $T/repo clean -qfd
-rsync -a --delete --exclude .git --exclude 'replays/' /verif/ $T/verif/
+if [ -n "$SEEDTEST_FROM_HEAD" ]; then
+  # the committed machinery only (so that edits in progress in /verif do not leak into a long self-test run)
+  mkdir -p $T/verif; git -C /verif archive HEAD | tar -x -C $T/verif
+else
+  rsync -a --delete --exclude .git --exclude 'replays/' /verif/ $T/verif/
+fi
 sed -i "s#/repo/#$T/repo/#g" $T/verif/harness/Cargo.toml $T/verif/cfgh/Cargo.toml
 rm -f $T/verif/harness/Cargo.lock $T/verif/cfgh/Cargo.lock
 if [ "$S" != "none" ]; then git -C $T/repo apply $PATCH 2>/dev/null || git -C $T/repo apply --3way $PATCH || { echo "patch does not apply"; exit 2; }; fi
